@@ -27,7 +27,7 @@ HARNESSES.append(dict(LINUX, name="linux_get_tid", entry="h_linux_get", encoded=
                       bounds="kernel mask: any 128 bits; complete cpuset: any 128 bits or absent; previous content of the output bitmap: any 192 bits with or without an infinite tail", cost=60))
 for ncpu, tiers in ((2, {"quick": {}, "thorough": {}}), (3, {"thorough": {"timeout": 4000}}), (5, {"thorough": {"timeout": 8000}})):
     uw = dict(LINUX["unwindset"]); uw.update({"hwloc_linux_set_tid_cpubind.0": ncpu + 2, "hwloc_linux_set_tid_cpubind.1": ncpu + 2, "h_linux_roundtrip.0": ncpu + 1})
-    HARNESSES.append(dict(LINUX, name="linux_roundtrip_%d" % ncpu, entry="h_linux_roundtrip", defines={"NCPU": ncpu}, unwindset=uw, encoded=["hwloc_linux_set_tid_cpubind", "hwloc_linux_get_tid_cpubind", "hwloc_linux_find_kernel_nr_cpus"], tiers=tiers,
+    HARNESSES.append(dict(LINUX, core=(ncpu <= 3), name="linux_roundtrip_%d" % ncpu, entry="h_linux_roundtrip", defines={"NCPU": ncpu}, unwindset=uw, encoded=["hwloc_linux_set_tid_cpubind", "hwloc_linux_get_tid_cpubind", "hwloc_linux_find_kernel_nr_cpus"], tiers=tiers,
                           bounds="any set of 1..%d CPUs below 128 inside any 128-bit complete cpuset; any previous kernel mask" % ncpu, cost=60))
 OUTSIDE = ["the live round trip on the running system (bind -> get, last_cpu_location inside the binding, load restores the binding): real syscalls cannot be encoded",
            "the other native hooks (process-wide binding over /proc/<pid>/task, memory binding syscalls, non-Linux ports)", "get_*membind / alloc_membind entry points"]
